@@ -409,6 +409,15 @@ class Env:
     def exec(self, s):
         """Execute one simple statement (the `.ast` of a CFG 'stmt' node)."""
         if isinstance(s, ast.Assign):
+            # simultaneous assignment `a, b = x, y`: all right-hand sides are
+            # evaluated first, then bound element-wise
+            if (isinstance(s.value, (ast.Tuple, ast.List)) and len(s.targets) == 1 and isinstance(s.targets[0], (ast.Tuple, ast.List))
+                    and len(s.targets[0].elts) == len(s.value.elts)
+                    and not any(isinstance(e, ast.Starred) for e in list(s.targets[0].elts) + list(s.value.elts))):
+                vals = [self.eval(e) for e in s.value.elts]
+                for t, v in zip(s.targets[0].elts, vals):
+                    self.assign(t, v)
+                return
             v = self.eval(s.value)
             for t in s.targets:
                 self.assign(t, v)
